@@ -344,3 +344,36 @@ def inheritance_merge_reads_own_properties_only(ctx):
                   'class definition re-merges it, an override like Parameter(min=1) starts to wipe the datatype properties of its bases', f)
     if not n:
         raise AnchorMissing('updateProperties not found')
+
+
+@rule('C09.R7', min_instances=1)
+def kept_configuration_is_not_consumed(ctx):
+    """_add_accessible applies the per-parameter configuration dict without changing it: SecNode / Server keep that dict
+    (only the outer dict is copied per module) and use it again for a restart, and one Param(...) may be shared by two
+    modules - popping keys from it changes what the next module / the restarted node is configured with"""
+    m = ctx.m
+    f = m.method(roles.MODULE, '_add_accessible', inherited=False)
+    ctx.analysed(f)
+    params = [a.arg for a in f.node.args.args]
+    cfgp = next((p for p in params if p in ('cfg', 'config', 'cfgdict')), None)
+    if cfgp is None:
+        raise AnchorMissing('configuration parameter of _add_accessible not found')
+    MUT = {'pop', 'popitem', 'clear', 'update', 'setdefault', '__setitem__', '__delitem__'}
+    bad = [c for c in calls_in(f.node) if call_attr(c) in MUT and isinstance(c.func, ast.Attribute) and dotted(c.func.value) == cfgp]
+    bad += [n for n in body_walk(f.node) if isinstance(n, ast.Delete) and any(isinstance(t, ast.Subscript) and dotted(t.value) == cfgp for t in n.targets)]
+    bad += [n for n in body_walk(f.node) if isinstance(n, (ast.Assign, ast.AugAssign)) and
+            any(isinstance(t, ast.Subscript) and dotted(t.value) == cfgp for t in (n.targets if isinstance(n, ast.Assign) else [n.target]))]
+    rebound = any(v is not None and isinstance(v, ast.Call) and dotted(v.func) in ('dict', 'copy.copy', 'copy.deepcopy') for v, st, how in local_assigns(f.node, cfgp)
+                  if how == 'assign')
+    ctx.check(not bad or rebound, f'{f.qualname}:configuration dict is read only', bad[0] if bad else f.node, f'`{cfgp}` is only read',
+              f'`{src(bad[0]) if bad else ""}` changes the configuration dict handed in: it is the dict kept in the node configuration (shallow '
+              'copies only), so a restart or a second module using the same Param(...) starts without these entries', f)
+
+
+@rule('C09.R2b', min_instances=8)
+def container_copies_copy_their_members(ctx):
+    """shared with C03.R2: Parameter.clone gives every instance a copy() of the class-level datatype; for arrays, tuples and
+    structs that copy has to reach the member datatypes too, whatever properties they have - set_main_unit and setProperty
+    on one instance's member would otherwise change the other instances and the class"""
+    from sa.rules import c03
+    c03.copy_without_sharing(ctx)
